@@ -221,7 +221,12 @@ func genC03(ctx *Ctx) {
 		ctx.Count("expression:" + tag)
 		env := c03Env(ctx)
 		safe := ctx.Rnd.Intn(4) == 0
-		ctx.Input(sx.L(sx.I(0), exprInput(text, env, nil), c03Oracle(text, env, safe), sx.B(safe)), nt)
+		orc := c03Oracle(text, env, safe)
+		if c03FarDate {
+			ctx.Count("skipped:far-date")
+			return
+		}
+		ctx.Input(sx.L(sx.I(0), exprInput(text, env, nil), orc, sx.B(safe)), nt)
 	}
 	for i := 0; i < ctx.N; i++ {
 		t := genC03Tree(ctx, 1+ctx.Rnd.Intn(5))
@@ -414,7 +419,11 @@ func runC03Template(in sx.SX) (sx.SX, string) {
 
 // c03Oracle evaluates the expression once more with the spying manager and function collection, and lists the host
 // answers for every value that passed through them.
+// set by c03Oracle when the expression builds a date-time outside the modelled range
+var c03FarDate bool
+
 func c03Oracle(text string, env sx.SX, safe bool) (out sx.SX) {
+	c03FarDate = false
 	var orc sx.List
 	out = sx.L()
 	defer func() {
@@ -456,7 +465,21 @@ func c03Oracle(text string, env sx.SX, safe bool) (out sx.SX) {
 		for _, a := range c.args {
 			oracleFor(a, &orc, done)
 		}
-		fnOracle(c.name, c.args, &orc)
+		fnOracleWith(c.name, c.args, &orc, newManager(safe))
+		if strings.EqualFold(c.name, "Date") && len(c.args) >= 2 && len(c.args) <= 7 {
+			if d, ok := dateComponents(c.args, newManager(safe)); ok {
+				for i, x := range d {
+					if x > 10000 || x < -10000 || (i == 0 && (x > 9999 || x < -9999)) {
+						c03FarDate = true // date-times far from the epoch overflow time.Time itself: outside the model (DESIGN.md 4.3)
+					}
+				}
+			}
+		}
+		if strings.EqualFold(c.name, "Date") && len(c.args) == 1 {
+			if v, err := newManager(safe).Convert(c.args[0], variants.Long); err == nil && v != nil && (v.AsLong() > 1<<40 || v.AsLong() < -(1<<40)) {
+				c03FarDate = true
+			}
+		}
 	}
 	if orc == nil {
 		return sx.L()
